@@ -126,9 +126,10 @@ Definition set_path (u : url) (p : list N) : option url :=
   st <- u_scheme_type u1 ;;
   let s0 := truncate (ser u1) (path_start u1) in
   s1 <- (if cbb then
-           let '(s, p') := match p with
-                           | 47 :: r => (s0 ++ [37; 50; 70], r)
-                           | _ => (s0, p)
+           (* the '/' test is made on the tab/LF/CR-free input (Input::split_prefix('/'), repair 0cfc9d8) *)
+           let '(s, p') := match inp_split_prefix_char 47 (input_new_no_trim p) with
+                           | Some r => (s0 ++ [37; 50; 70], r)
+                           | None => (s0, input_new_no_trim p)
                            end in
            Some (fst (parse_cannot_be_a_base_path CSetter s p'))
          else
